@@ -234,9 +234,9 @@ def showRes : Res → String
   | .ok ap vals => "ok" ++ (if ap then " approx" else "") ++ showVals vals
 
 /-- the forms in which the harness writes / consumes the solve expression; all denote the same `X`
-(`r j p q m n`: lazily consumed matrix solves, matrix right-hand sides only) -/
+(`r j p q m n`, and `t c l` where the transpose rewrite compiles: lazily consumed matrix solves, matrix right-hand sides only) -/
 def formKnown (form : Char) (isVec : Bool) : Bool :=
-  "siabexy".toList.contains form || (!isVec && "rjpqmn".toList.contains form)
+  "siabexy".toList.contains form || (!isVec && "rjpqmntcl".toList.contains form)
 
 def opSolve : P String := do
   let tag ← word
